@@ -1,0 +1,16 @@
+//go:build verif
+
+package messagequeue
+
+// hasQueuedBuilders reports whether messages are waiting to be sent; it is
+// only consulted by the verification harness.
+func (mq *MessageQueue) hasQueuedBuilders() bool {
+	mq.buildersLk.RLock()
+	defer mq.buildersLk.RUnlock()
+	for _, b := range mq.builders {
+		if !b.Empty() {
+			return true
+		}
+	}
+	return false
+}
